@@ -1,7 +1,7 @@
 /*@unit {
  'kind': 'proof', 'mode': 'plain', 'solver': 'kissat',
- 'functions': ['dlist_empty', 'dlist_is_linked'],
- 'clauses': 'for a linked node h of a ring of any length: dlist_empty(h) <=> h is self-linked (next==prev==h) <=> !dlist_is_linked(h); both are pure (no link changes) and read only h',
+ 'functions': ['dlist_empty', 'dlist_is_linked', 'DLIST_HEAD', 'DLIST_HEAD_INIT'],
+ 'clauses': 'for a linked node h of a ring of any length: dlist_empty(h) <=> h is self-linked (next==prev==h) <=> !dlist_is_linked(h); both are pure (no link changes) and read only h; DLIST_HEAD(name) is an empty self-linked head',
  'witness': {'unwind': 14},
 } @*/
 #define C01_K 3   /* h, h->next, h->prev */
@@ -22,5 +22,7 @@ void harness(void)
     __CPROVER_assert((l != 0) == !(SELF0(x)), "dlist_is_linked(h) iff h is not self-linked");
     __CPROVER_assert((e != 0) == (c01_nx[x] == x) && (e != 0) == (c01_pv[x] == x), "emptiness seen through next and through prev agree");
     c01_unchanged();
+    DLIST_HEAD(hd);                                /* static initialiser = dlist_init */
+    __CPROVER_assert(hd.next == &hd && hd.prev == &hd && dlist_empty(&hd) && !dlist_is_linked(&hd), "DLIST_HEAD / DLIST_HEAD_INIT give an empty, self-linked head");
     CANARY("dl_query end reachable");
 }
